@@ -24,7 +24,8 @@ RULE = ("random histories (length <= 8 quick / <= 40 thorough) of solve() calls 
         "the default table (with/without 'par', dict order kept or shuffled, default steps or a random custom step "
         "order) with strings from the full language, from the subset's own symbols and plain-parenthesis / call "
         "forms; atom classes that are not pure: constructor reading variables changed between the calls, in-place "
-        "operators returning self, constructor-call counting; the stock AtomBase with expressions whose numpy arithmetic "
+        "operators returning self (a string-list atom and a numeric atom over the default operators), constructor-call "
+        "counting; the stock AtomBase with expressions whose numpy arithmetic "
         "gives nan / inf / raises or that use a logarithm -- there the k-th outcome is also compared with the outcome "
         "of the same expression in a process that solved nothing before (forked from a pristine server). Every instance gets private copies of the operator "
         "dict and step list; the fresh instance is built from the pristine configuration at the moment of the "
@@ -44,6 +45,14 @@ ASSUMPTIONS = [
     "the atom algebra in force at a call is not influenced by earlier calls through process-wide state: numpy error "
     "mode / error callback / print options, recursion limit, decimal context, locale, cwd, environment, warning "
     "filters are compared before/after every history, and stock-atom outcomes with the pristine-process baseline",
+    "model comparison (code vs Lean state machine) is a verdict only for the input classes the property names "
+    "(generated valid expressions and the injected faults); on random symbol soup ('assembled' strings of the "
+    "subset configurations) a difference is only counted (outside.impl_ne_model) -- the fresh-instance comparison, "
+    "which is the property itself, applies to every string",
+    "the pristine-process baseline is used only when the forked child reported normally and a second, newly "
+    "started server reproduces it; if the server cannot be run the run falls back to fresh-instance comparison "
+    "(noted). The process-state snapshot holds deterministic items only (numpy error mode / callback / print "
+    "options, recursion limit, decimal context, locale, cwd, environment)",
     "solve() is called with strings (an Expression object passed in is consumed by the call)",
     "outcomes are compared as terms (recording atom) or as the custom atoms' values; every raised exception is "
     "one outcome 'err'",
@@ -91,6 +100,7 @@ def gen_tables(ctx):
 # ---------------------------------------------------------------- configurations (real side)
 WORLD = {"foo": 3.0, "bar": 4.0}
 MODEL_UNSUPPORTED = ("fuel", "sign-item", "row")
+NO_MODEL_VERDICT = ("assembled",)
 POLLUTER = {"exprs": None, "what": None}      # the first calls of this run that changed process-wide state
 
 
@@ -142,6 +152,31 @@ def make_configs():
             self.value[:] = [str(len(self.value) > len(other.value))]
             return self
 
+    import numpy as np
+
+    class MutNum(AtomBase):
+        """a numeric atom whose arithmetic recycles the left operand (in place, returns self)"""
+
+        def __init__(self, value):
+            self.value = float(value.strip()) if isinstance(value, str) else value
+
+        def _ip(self, v):
+            self.value = v
+            return self
+
+        def __add__(self, o): return self._ip(self.value + o.value)
+        def __sub__(self, o): return self._ip(self.value - o.value)
+        def __mul__(self, o): return self._ip(self.value * o.value)
+        def __truediv__(self, o): return self._ip(self.value / o.value)
+        def __pow__(self, o): return self._ip(self.value ** o.value)
+        def __neg__(self): return self._ip(-self.value)
+        def log(self): return self._ip(np.log(self.value))
+        def log10(self): return self._ip(np.log10(self.value))
+        def sqrt(self): return self._ip(np.sqrt(self.value))
+        def sin(self): return self._ip(np.sin(self.value))
+        def cos(self): return self._ip(np.cos(self.value))
+        def tan(self): return self._ip(np.tan(self.value))
+
     class CountAtom(P.RecAtom):
         """recording atom that counts how often the constructor is called with a text"""
         made = 0
@@ -191,6 +226,9 @@ def make_configs():
     cfgs["stockcfg"] = dict(atom=AtomBase, operators=None, steps=None, alg=None,
                             classes=list(dflt.operators.values()), value=lambda a: PR.canon_value(a.value),
                             observe=quiet, pristine=True)
+    cfgs["inplacenumcfg"] = dict(atom=MutNum, operators=None, steps=None, alg=None,
+                                 classes=list(dflt.operators.values()), value=lambda a: PR.canon_value(a.value),
+                                 observe=quiet)
     for c in cfgs.values():
         c.setdefault("observe", plain)
         c.setdefault("between", None)
@@ -222,7 +260,19 @@ def make_subset_config(rng, default_ops):
               (['add', 'sub'], "UNARY"), (['pow'], "BINARY"), (['mul', 'truediv'], "BINARY"),
               (['add', 'sub'], "BINARY"), (['eq', 'ne', 'le', 'ge', 'lt', 'gt'], "BINARY"), (['not'], "UNARY"),
               (['and'], "BINARY"), (['or'], "BINARY")]
-    if rng.random() < 0.6:
+    drop = []
+    if rng.random() < 0.2:
+        # a configuration whose operator dict has several operators that NO step mentions
+        groups = [['pow'], ['mul', 'truediv'], ['add', 'sub'], ['eq', 'ne', 'le', 'ge', 'lt', 'gt'], ['and'], ['or']]
+        drop = rng.sample(groups, rng.randint(2, 3))
+        for g in drop:
+            chosen.add(rng.choice(g))
+        order = [n for n in names if n in chosen]
+    if drop:
+        st = [x for x in dsteps if x[0] not in drop]
+        steps = [dict(operators=list(ops), otype=Otype[ot]) for ops, ot in st]
+        msteps = [[list(ops), ot] for ops, ot in st]
+    elif rng.random() < 0.6:
         steps, msteps = None, None
     else:
         st = [x for x in dsteps if rng.random() < 0.8]
@@ -233,7 +283,10 @@ def make_subset_config(rng, default_ops):
             st = [([n for n in ops if n in chosen] or ops, ot) for ops, ot in st]
         steps = [dict(operators=list(ops), otype=Otype[ot]) for ops, ot in st]
         msteps = [[list(ops), ot] for ops, ot in st]
-    return dict(atom=P.RecAtom, operators={n: default_ops[n] for n in order}, steps=steps, alg="float",
+    listed = set(n for ops, _ in (dsteps if steps is None else st) for n in ops)
+    unlisted = [default_ops[n].symbol for n in order
+                if n not in listed and not default_ops[n].symbol.endswith("(")]
+    return dict(unlisted=unlisted, atom=P.RecAtom, operators={n: default_ops[n] for n in order}, steps=steps, alg="float",
                 mcfg={"ops": order, "steps": msteps}, classes=[default_ops[n] for n in order],
                 value=lambda a: L.listify(a.value), mvalue=lambda t: t, observe=lambda fn: fn(), between=None,
                 pristine=False, names=order)
@@ -476,6 +529,13 @@ def gen_subset(rng, cfg):
     if r < 0.35:
         return gen_default(rng)
     syms = [c.symbol for c in cfg["classes"]]
+    unlisted = cfg.get("unlisted") or []
+    if len(unlisted) >= 2 and rng.random() < 0.5:
+        # expressions that combine operators which no step of this configuration mentions
+        lx = [L.gen_lit(rng)]
+        for _ in range(rng.randint(1, 3)):
+            lx += [rng.choice(unlisted), L.gen_lit(rng)]
+        return join(rng, lx), "unlisted-operators"
     if r < 0.7:
         lx = []
         for _ in range(rng.randint(1, 7)):
@@ -506,11 +566,32 @@ def gen_edge(rng):
     return rng.choice(forms), "edge"
 
 
+def gen_num(rng):
+    """numerical expressions with functions at the top level (no comparisons / logic)"""
+    fs = ["exp", "sqrt", "sin", "cos", "log", "exp", "exp"]
+    n = rng.randint(1, 3)
+    lx = []
+    for i in range(n):
+        if i:
+            lx.append(rng.choice(["+", "*", "-", "/", "**"]))
+        q = rng.random()
+        if q < 0.5:
+            lx += [rng.choice(fs) + "(", L.gen_lit(rng), ")"]
+        elif q < 0.65:
+            lx += ["(", L.gen_lit(rng), "+", L.gen_lit(rng), ")"]
+        else:
+            lx.append(L.gen_lit(rng))
+    if rng.random() < 0.3:
+        kind, lx = inject_fault(rng, lx)
+        return join(rng, lx), kind
+    return join(rng, lx), "valid"
+
+
 def gen_stock(rng):
     return gen_edge(rng) if rng.random() < 0.6 else gen_default(rng)
 
 
-GENS = {"stockcfg": gen_stock, "default": gen_default, "strcfg": gen_str, "unarycfg": gen_unary, "worldcfg": gen_world,
+GENS = {"stockcfg": gen_stock, "inplacenumcfg": gen_num, "default": gen_default, "strcfg": gen_str, "unarycfg": gen_unary, "worldcfg": gen_world,
         "inplacecfg": gen_str, "countcfg": gen_default}
 
 
@@ -526,7 +607,10 @@ def judge(ctx, cfgname, cfg, exprs, kinds=None, model=None, seed=0, pristine=Non
         model = None
     mlist = model["ok"] if model is not None else [None] * len(exprs)
     dirty = False
+    model_off = False
     for k, (s, (out, left, right, fresh), m) in enumerate(zip(exprs, real, mlist)):
+        if model_off:
+            m = None
         ctx.count("%s.calls" % cfgname)
         if kinds:
             ctx.count("%s.call.%s" % (cfgname, kinds[k]))
@@ -550,6 +634,10 @@ def judge(ctx, cfgname, cfg, exprs, kinds=None, model=None, seed=0, pristine=Non
         base = pristine.get(s) if pristine else None
         if base is not None and (out == "err" or out == "none" or (isinstance(out, dict) and "atom" in out)) \
                 and out != base:
+            again = pristine_outcomes([s])
+            if not again or again.get(s) != base:
+                ctx.count("stockcfg.pristine_baseline_not_reproducible")
+                continue
             hist = exprs[:k + 1]
             if POLLUTER["exprs"] is not None and POLLUTER["exprs"] != exprs[:len(POLLUTER["exprs"])]:
                 hist = POLLUTER["exprs"] + hist       # the earlier calls of this process that changed the state
@@ -569,12 +657,15 @@ def judge(ctx, cfgname, cfg, exprs, kinds=None, model=None, seed=0, pristine=Non
             continue
         if model_unsupported(m["out"]):
             ctx.count("model.unsupported")
-            mlist = [None] * len(exprs)      # the model's state is not meaningful any more
-            for j in range(k + 1, len(exprs)):
-                pass
-            model = None
-            break
+            model_off = True                 # the model's state is not meaningful any more
+            continue
         mo = canon_mout(cfg, m["out"])
+        if out != mo and kinds and kinds[k] in NO_MODEL_VERDICT:
+            # random symbol soup: the fresh-instance comparison (the property) applies, a difference between code
+            # and model on such a string is only counted and ends the model comparison of this history
+            ctx.count("outside.impl_ne_model")
+            model_off = True
+            continue
         if out != mo:
             ctx.disagreement("history-outcome:" + cfgname, {"cfg": cfgname, "config": cfg.get("mcfg"), "exprs": exprs[:k + 1]},
                              "impl %s model %s" % (out, mo))
@@ -603,11 +694,14 @@ def pristine_outcomes(texts):
     if not texts:
         return {}
     env = dict(os.environ, VERIF_REPO=str(core.REPO))
-    p = subprocess.run([sys.executable, PR.__file__], env=env, text=True, stdout=subprocess.PIPE, stderr=subprocess.PIPE,
-                       input="".join(json.dumps({"s": t}) + "\n" for t in texts), timeout=1800)
+    try:
+        p = subprocess.run([sys.executable, PR.__file__], env=env, text=True, stdout=subprocess.PIPE,
+                           stderr=subprocess.PIPE, input="".join(json.dumps({"s": t}) + "\n" for t in texts), timeout=1800)
+    except (OSError, subprocess.SubprocessError):
+        return None
     lines = p.stdout.splitlines()
     if p.returncode != 0 or len(lines) != len(texts):
-        raise RuntimeError("pristine oracle failed: rc=%s %d/%d %s" % (p.returncode, len(lines), len(texts), p.stderr[-500:]))
+        return None       # no baseline this time (reported as a note); never a verdict
     return {t: json.loads(l) for t, l in zip(texts, lines)}
 
 
@@ -708,7 +802,7 @@ def correspond(ctx: Ctx):
         ctx.count("subset.%s_steps" % ("default" if sub["steps"] is None else "custom"))
         plan.append(("subset", sub, [c[0] for c in calls], [c[1] for c in calls]))
     # atom classes that are not pure (constructor reads changing variables / in-place operators / counted)
-    for cfgname in ("worldcfg", "inplacecfg", "countcfg"):
+    for cfgname in ("worldcfg", "inplacecfg", "countcfg", "inplacenumcfg"):
         for _ in range(count // 2):
             n = rng.randint(2, maxlen)
             calls = [GENS[cfgname](rng) for _ in range(n)]
@@ -716,7 +810,10 @@ def correspond(ctx: Ctx):
     # the outcome of every stock expression in a process that solved nothing before
     ptexts = sorted({s for p in plan if p[1]["pristine"] for s in p[2]})
     pristine = pristine_outcomes(ptexts)
-    ctx.count("stockcfg.pristine_baselines", len(ptexts))
+    if pristine is None:
+        ctx.notes.append("pristine-process oracle unavailable in this run: stock outcomes compared with fresh instances only")
+        pristine = {}
+    ctx.count("stockcfg.pristine_baselines", len([t for t in ptexts if pristine.get(t) is not None]))
     modelled = [i for i, p in enumerate(plan) if p[1]["alg"] is not None]
     answers = ctx.driver.ask_many(
         [{"k": "history", "cfg": plan[i][1]["mcfg"], "alg": plan[i][1]["alg"], "exprs": plan[i][2]} for i in modelled])
